@@ -74,7 +74,8 @@ type config struct {
 type dCase struct {
 	Ali     gen.Ali   `json:"ali"`
 	Cfg     config    `json:"cfg"`
-	Weights []float64 `json:"weights"` // nil or one positive weight per column
+	Weights []float64 `json:"weights"` // nil or one non-negative weight per column
+	Scale   float64   `json:"scale"`   // > 0: the matrix is also computed with every weight multiplied by it
 	RowPerm []int     `json:"rowperm"`
 	ColPerm []int     `json:"colperm"`
 }
@@ -212,6 +213,12 @@ func genDist(t *rapid.T) dCase {
 	c.Cfg = genConfig(t, false)
 	l := c.Ali.Length()
 	c.Weights = genWeights(t, l)
+	switch rapid.IntRange(0, 5).Draw(t, "scalekind") {
+	case 0, 1: // exact power of two: the scaled weights are exact
+		c.Scale = math.Pow(2, float64(rapid.IntRange(-30, 30).Draw(t, "scale2")))
+	case 2, 3, 4:
+		c.Scale = math.Exp(rapid.Float64Range(math.Log(1e-9), math.Log(1e9)).Draw(t, "scale"))
+	}
 	c.RowPerm = gen.Perm(t, len(c.Ali.Rows), "rowperm")
 	c.ColPerm = gen.Perm(t, l, "colperm")
 	return c
@@ -362,6 +369,7 @@ type reading struct {
 	r, l  [][]float64
 	gamma bool
 	alpha float64
+	ill   bool // the reference decomposition itself is not accurate: likelihood clause not judged
 }
 
 func newReading(a gen.Ali, cfg config, w []float64, strict bool) (*reading, error) {
@@ -402,7 +410,9 @@ func newReading(a gen.Ali, cfg config, w []float64, strict bool) (*reading, erro
 				want = 1
 			}
 			if math.Abs(id-want) > 1e-10 || math.Abs(qq-q[i][j]) > 1e-9*(1+math.Abs(q[i][j])) {
-				return nil, fmt.Errorf("eigen-decomposition of the reference rate matrix is inaccurate at (%d,%d): %g %g / %g", i, j, id, qq, q[i][j])
+				// rates of 1e8 and more: frequencies near 1e-10 next to amino acids that hardly exchange
+				// (weights scaled up until the pseudo-count vanishes): no likelihood to 1e-7 here
+				rd.ill = true
 			}
 		}
 	}
@@ -472,6 +482,33 @@ func (rd *reading) logLk(entries []pairEntry, t float64) float64 {
 	return lnl
 }
 
+// minProb: the smallest P_ab(t) over the observed residue pairs
+func (rd *reading) minProb(entries []pairEntry, t float64) float64 {
+	if t < blMin {
+		t = blMin
+	}
+	if t > blMax {
+		t = blMax
+	}
+	var e [20]float64
+	for k := 0; k < 20; k++ {
+		if rd.gamma {
+			e[k] = math.Pow(rd.alpha/(rd.alpha-rd.val[k]*t), rd.alpha)
+		} else {
+			e[k] = math.Exp(rd.val[k] * t)
+		}
+	}
+	mn := 1.0
+	for _, en := range entries {
+		p := 0.0
+		for k := 0; k < 20; k++ {
+			p += rd.r[en.a][k] * e[k] * rd.l[k][en.b]
+		}
+		mn = math.Min(mn, p)
+	}
+	return mn
+}
+
 var grid = func() []float64 {
 	g := make([]float64, 60)
 	for i := range g {
@@ -481,8 +518,8 @@ var grid = func() []float64 {
 }()
 
 // maximal: err is nil if no grid or nearby distance has a likelihood higher than the one of d by more
-// than lkTol. curved tells whether the likelihood drops measurably around d (otherwise the position
-// of the maximum is not determined to better than a few percent).
+// than lkTol. curved tells whether the likelihood drops enough around d for the position of the
+// maximum to be determined well below the 1e-4 of the relations.
 //
 // The error message says what kind of failure it is (both kinds were genuine defects of the optimiser,
 // repaired by f7984a1 and 20826a6, see FINDINGS.md):
@@ -491,6 +528,13 @@ var grid = func() []float64 {
 //   - lower local maximum: d passes the nearby test, a grid distance has a higher likelihood and
 //     between the two the likelihood falls below the one of d (a valley).
 func (rd *reading) maximal(entries []pairEntry, d float64) (err error, curved bool) {
+	// conditioning: a transition probability assembled from an eigen system in double precision carries
+	// an absolute error of about 1e-14; when an observed residue pair has P_ab(d) < 1e-6 (zero
+	// exchangeability and every two-step path through amino acids of negligible frequency) the
+	// likelihood is not known to 1e-7 by anybody: the pair is not judged (counted ill_conditioned)
+	if rd.ill || rd.minProb(entries, d) < 1e-6 {
+		return nil, false
+	}
 	ld := rd.logLk(entries, d)
 	if math.IsNaN(ld) {
 		return fmt.Errorf("likelihood undefined at the reported distance"), false
@@ -501,7 +545,9 @@ func (rd *reading) maximal(entries []pairEntry, d float64) (err error, curved bo
 		if lt > ld+lkTol && err == nil {
 			err = fmt.Errorf("lnL(%.10g) = %.10f but the nearby distance %.10g has lnL = %.10f", d, ld, d*f, lt)
 		}
-		if (f == 1-1e-2 || f == 1+1e-2) && !(ld-lt > 1e-9) {
+		// the position of the maximum is known to about sqrt(2 noise / |lnL''|), noise about 1e-14:
+		// for 3e-5 the drop over 1 % of d must exceed 1e-9 d^2; ten times that is required
+		if (f == 1-1e-2 || f == 1+1e-2) && !(ld-lt > 1e-8*math.Max(1, d*d)) {
 			curved = false
 		}
 	}
@@ -771,6 +817,42 @@ func checkDist(c dCase) (o pbt.Outcome, err error) {
 			}
 		}
 		o.Class("weights: integer multiplicities, compared with repeated columns")
+	}
+	// multiplying every weight by a positive constant leaves the matrix unchanged
+	if c.Scale > 0 && c.Scale >= 1e-9 && c.Scale <= 1e9 {
+		ws := make([]float64, c.Ali.Length())
+		for j := range ws {
+			ws[j] = c.Scale
+			if c.Weights != nil {
+				ws[j] = c.Weights[j] * c.Scale
+			}
+		}
+		ds, e := mlDist(c.Ali, c.Cfg, ws)
+		if e != nil {
+			return o, fmt.Errorf("no distance matrix with every weight multiplied by %g: %v", c.Scale, e)
+		}
+		if c.Cfg.ModelFreqs {
+			for i := 0; i < n; i++ {
+				for j := 0; j < n; j++ {
+					if v.flat[i][j] != 0 {
+						continue
+					}
+					if math.Abs(ds[i][j]-d[i][j]) > relTol {
+						return o, fmt.Errorf("with every weight multiplied by %g d[%d][%d] = %.10g instead of %.10g", c.Scale, i, j, ds[i][j], d[i][j])
+					}
+				}
+			}
+			o.Class("weights: scaled, same matrix required")
+		} else {
+			// empirical frequencies: the FastME convention adds one pseudo-count per amino acid when a
+			// weighted count is below 1/20, which depends on the scale of the weights: the matrix may
+			// change; it is judged by the oracle with the scaled weights instead
+			if _, err = judge(c.Ali, c.Cfg, ws, ds, &o); err != nil {
+				return o, fmt.Errorf("with every weight multiplied by %g: %v", c.Scale, err)
+			}
+			o.Ambiguous++
+			o.Class("weights: scaled, empirical frequencies (oracle only)")
+		}
 	}
 	zeros := false
 	for _, w := range c.Weights {
